@@ -93,7 +93,7 @@ PROP = {
  "C06": "store: reads and head per context incl. numerically adjacent context ids; conc: follower context filter; http: every route taking a context incl. head --follow; handler dispatch/output and script-visible commands: processors group.",
  "C07": "store: append accepted iff context usable, xs.context only in the zero context and stored forever, registry = function of frames after import / remove / reopen (raw registry dump); dur: after crash-reopen.",
  "C08": "store: a frame vanishes only if removed, expired (virtual clock at ts+N-1, ts+N, ts+N+1 and while a scan is stalled) or outside the K newest after a head:K append; GC steps interleaved by the gate; TLC action property C08_NoEarlyLoss on the model.",
- "C09": "store: ephemeral never stored, expired never read on either path, gone after drain, head bound and eviction order after drain; conc: ephemeral frames reach subscribed followers. Known finding C09-reopen-drops-head-gc recognised by its specific pattern only.",
+ "C09": "store: ephemeral never stored, expired never read on either path, gone after drain, head bound and eviction order after drain - on the model as the invariant INV_Drained (whenever the collector's queue is empty, in every reachable state, not only where a client drain is possible) and as progress under weak fairness of the collector's step (FairSpec of XsStore, MC_store_live_gc: L_GcDrains, L_C09_Enforced; named deviation head-check-skipped must be rejected); conc: ephemeral frames reach subscribed followers. Known finding C09-reopen-drops-head-gc recognised by its specific pattern only.",
  "C10": "store/http: byte-exact read-back of every content class, hash determinism across calls, entry points (Store API, POST /{topic}, POST /cas) and restarts, no body => no hash, every visible hash has content; conc: content readable at delivery; dur: after every kill image. nu / handler / command / generator entry points: processors group.",
  "C11": "conc: limit exact for every split between history and live, tail, synthetic frames private, stream ends after lag (B = 1 scenarios and production sizes in stress), and as temporal properties under weak fairness the stream does end - end-of-stream reaches the consumer - after the limit, without follow, after lag (L_LimitEnds, L_NonFollowEnds, L_LagEnds; vacuity guard: HbStops = FALSE must violate them); store: limit on non-following reads incl. expired frames, tail without follow.",
  "C12": "codec: TTL and read-option grammar exhaustively at token level through every spelling and entry point, 2000 seeded ReadOptions round trips; store/http: every accepted frame (meta classes: deep nesting, u64::MAX, i64::MIN, 1e300, escapes, non-object metas, 5 KB strings) reads back identical on every path and survives reopen; a panic in the decoder is an observation; cli: what the command line client encodes (context, ttl, xs-meta, last-id, limit, tail, all-contexts) is what the server decodes, judged by the effect and differentially against the Store API.",
